@@ -21,7 +21,11 @@ import time
 
 VERIF = os.path.dirname(os.path.dirname(os.path.abspath(__file__)))
 SPEC = os.path.join(VERIF, 'spec')
-REPO = '/repo'
+# development aid (harness/mutate.py): run the checks against a scratch copy of
+# the repository and write evidence / replay files elsewhere.  The registered
+# commands never set these: they always check /repo itself.
+REPO = os.environ.get('VERIF_REPO', '/repo')
+OUT = os.environ.get('VERIF_OUT', VERIF)
 BUILD = os.path.join(VERIF, 'build')
 BIN = os.path.join(BUILD, 'bin')
 PY = '/venv/bin/python'
@@ -368,7 +372,7 @@ class Check:
         for key, (k, n) in sorted(self.known_hit.items()):
             print('KNOWN-FINDING: property=%s %s (key %s; %d executions)' %
                   (self.pid, k['what'], key, n))
-        rdir = os.path.join(VERIF, 'replay', self.pid)
+        rdir = os.path.join(OUT, 'replay', self.pid)
         seen = set()
         nviol = 0
         for key, what, replay in self.violations:
@@ -408,8 +412,8 @@ class Check:
               'level': 'model_checking', 'coverage': cov,
               'assumptions': self.assumptions, 'wall_s': round(wall, 1),
               'violations': nviol}
-        os.makedirs(os.path.join(VERIF, 'evidence'), exist_ok=True)
-        with open(os.path.join(VERIF, 'evidence', self.pid + '.json'),
+        os.makedirs(os.path.join(OUT, 'evidence'), exist_ok=True)
+        with open(os.path.join(OUT, 'evidence', self.pid + '.json'),
                   'w') as f:
             json.dump(ev, f, indent=1, default=str)
         print('%s tier=%s states=%d traces=%d violations=%d known=%d '
@@ -439,6 +443,8 @@ def tool_env(extra=None):
     e['PATH'] = BIN + ':/venv/bin:/usr/local/bin:/usr/bin:/bin'
     e['PYTHONHASHSEED'] = '0'
     e['LC_ALL'] = 'C.UTF-8'
+    if REPO != '/repo':
+        e['PYTHONPATH'] = REPO
     if extra:
         e.update(extra)
     return e
